@@ -1804,6 +1804,8 @@ impl<'a, 'c> Gen<'a, 'c>
 			body,
 			ret_expr,
 			public: false,
+			external: false,
+			head_only: false,
 		});
 		self.prog.order.push(Top::Func(idx));
 	}
